@@ -198,11 +198,34 @@ fn run_scn(s: &Scn, out: &mut Out) {
     out.case(&s.line(), &o, &if fails.is_empty() { "ok".to_string() } else { format!("FAIL:{}", fails.join(";")) });
 }
 
+/// a source address given to the builder: whatever the builder accepts must be able to open its channel
+fn run_fam(cfg: &Cfg, src: IpAddr, out: &mut Out) {
+    use trippy_core::{Builder, PrivilegeMode};
+    let input = format!("e2efam {} {}", cfg.render(), hex(&addr_bytes(src)));
+    let built = Builder::new(cfg.target).privilege_mode(PrivilegeMode::Privileged).protocol(cfg.proto).multipath_strategy(cfg.strategy)
+        .port_direction(cfg.portdir).trace_identifier(cfg.trace_id).first_ttl(cfg.first_ttl).max_ttl(cfg.max_ttl)
+        .max_inflight(cfg.max_inflight).initial_sequence(cfg.initial_sequence).source_addr(Some(src)).max_rounds(Some(1)).build();
+    let tracer = match built {
+        Ok(t) => t,
+        Err(e) => { out.case(&input, &format!("reject:{}", ErrK::of(&e).tok()), "ok"); return; }
+    };
+    sim::reset();
+    let res = std::panic::catch_unwind(std::panic::AssertUnwindSafe(|| Channel::<SimSocket>::connect(&tracer.verif_channel_config(src)).map(|_| ())));
+    sim::reset();
+    let (o, orc) = match res {
+        Ok(Ok(())) => ("accept connect=ok".to_string(), "ok".to_string()),
+        Ok(Err(e)) => (format!("accept connect=err:{}", ErrK::of(&e).tok()), "FAIL:C16:a_configuration_accepted_by_Builder::build_cannot_open_its_channel".to_string()),
+        Err(_) => ("accept connect=fault:panic".to_string(), "FAIL:C16:a_configuration_accepted_by_Builder::build_panicked_in_Channel::connect_(source_and_target_of_different_families)".to_string()),
+    };
+    out.case(&input, &o, &orc);
+}
+
 pub fn run(args: &Args, out: &mut Out) {
     vclock::enable(vclock::BASE_NS);
     if let Some(path) = &args.replay {
         for l in crate::replay_inputs(path) {
             let t: Vec<&str> = l.split(' ').collect();
+            if t[0] == "e2efam" && t.len() >= 3 { run_fam(&Cfg::parse(t[1]), crate::strat::addr_from(&crate::rng::unhex(t[2])), out); continue; }
             if t[0] != "e2e" || t.len() < 6 { continue; }
             run_scn(&Scn { cfg: Cfg::parse(t[1]), dist: t[2].parse().unwrap(), silent_hop: t[3].parse().unwrap(), all_silent: t[4] == "1", rounds: t[5].parse().unwrap() }, out);
         }
@@ -276,6 +299,18 @@ pub fn run(args: &Args, out: &mut Out) {
                 run_scn(&Scn { cfg, dist: 5, silent_hop: 0, all_silent: false, rounds: 4 }, out);
                 n += 1;
             }
+        }
+    }
+    // (d) a source address handed to the builder: same and other family than the target
+    for (proto, strategy, portdir) in &cells {
+        for v6 in [false, true] {
+            let cfg = Cfg {
+                proto: *proto, strategy: *strategy, portdir: *portdir, target: target(v6), trace_id: 4242, max_rounds: 1, first_ttl: 1, max_ttl: 30,
+                grace_ns: 50_000_000, max_inflight: 24, initial_sequence: 33434, min_ns: 200_000_000, max_ns: 400_000_000, max_samples: 256, max_flows: 64,
+            };
+            run_fam(&cfg, source(v6), out);
+            run_fam(&cfg, source(!v6), out);
+            n += 2;
         }
     }
     out.stat("end_to_end_scenarios", n);
